@@ -9,6 +9,7 @@ package c07
 
 import (
 	"fmt"
+	"net/http"
 	"net/url"
 	"runtime/debug"
 	"sort"
@@ -51,6 +52,7 @@ type Op struct {
 	Extra      int    `json:"extra,omitempty"`   // which never-granted scope is added
 	Introspect bool   `json:"introspect,omitempty"`
 	ClaimID    bool   `json:"claim_id,omitempty"` // Basic / assertion presentations: additionally send client_id=<the lineage's client> in the form
+	In         string `json:"in,omitempty"`       // where the parameters travel: "" = POST body | query-grant (grant_type in the URL query, rest in the body) | query-token (refresh_token in the URL query) | query-all (POST, everything in the URL query) | get (GET request)
 }
 
 type Case struct {
@@ -98,6 +100,8 @@ var (
 	badScopes = []string{"superset", "superset", "widenback", "widenback", "orig", "disjoint", "empty", "spaces"}
 	allScopes = append(append([]string{}, okScopes...), badScopes...)
 	badPres   = []string{"wrong_secret", "id_only", "bad_assertion"}
+	// parameter placement: the endpoints read the URL query as well as the body, so every guard has to hold wherever a parameter travels
+	placements = []string{"", "", "", "", "", "", "query-grant", "query-grant", "query-all", "get", "query-token"}
 	unknowns  = []string{"random", "flipped", "suffixed", "access", "empty"}
 )
 
@@ -111,6 +115,7 @@ func validRefresh(t *rapid.T, label string) Op {
 	op.Introspect = rapid.IntRange(0, 3).Draw(t, label+"introspect") == 0
 	op.Scope = rapid.SampledFrom(okScopes).Draw(t, label+"scope")
 	op.ClaimID = rapid.IntRange(0, 2).Draw(t, label+"claimid") == 0
+	op.In = rapid.SampledFrom(placements).Draw(t, label+"in")
 	return op
 }
 
@@ -584,6 +589,36 @@ func createCalls(calls []vkit.JEntry) (both []vkit.JEntry, accessOnly int) {
 	return
 }
 
+// send issues the token request with its parameters placed as op.In says (credentials in the form travel with the form).
+func send(ag *vkit.Agent, form url.Values, cred vkit.Cred, in string) *vkit.Resp {
+	if in == "" {
+		return ag.Token(form, cred)
+	}
+	hdr := http.Header{}
+	f := url.Values{}
+	for k, v := range form {
+		f[k] = v
+	}
+	cred.Apply(f, hdr)
+	path := ag.S.Paths["token"]
+	split := func(key string) *vkit.Resp {
+		q := url.Values{key: f[key]}
+		f.Del(key)
+		return ag.Post(path+"?"+q.Encode(), f, hdr)
+	}
+	switch in {
+	case "query-grant":
+		return split("grant_type")
+	case "query-token":
+		return split("refresh_token")
+	case "query-all":
+		return ag.Post(path+"?"+f.Encode(), url.Values{}, hdr)
+	case "get":
+		return ag.Get(path, f, hdr)
+	}
+	return ag.Post(path, f, hdr)
+}
+
 // refresh executes one refresh op; false = stop the history (a violation was recorded and the model may be out of step).
 func (w *world) refresh(i int, op Op) bool {
 	res := w.res
@@ -705,6 +740,9 @@ func (w *world) refresh(i int, op Op) bool {
 		verdict = "refuse"
 	case sclass == "malformed":
 		verdict = "grey"
+	case op.In != "":
+		// the statement does not say that parameters in the URL query (or a GET) have to be served; what it forbids is forbidden wherever they travel
+		verdict = "grey"
 	}
 
 	// bookkeeping for the non-triviality rule
@@ -720,7 +758,7 @@ func (w *world) refresh(i int, op Op) bool {
 
 	// ---- execute
 	nr0, nt0 := w.tables()
-	resp := ag.Token(form, cred)
+	resp := send(ag, form, cred, op.In)
 	nr1, nt1 := w.tables()
 	calls := w.st.CallsOf(resp.Req)
 	both, accessOnly := createCalls(calls)
@@ -739,7 +777,16 @@ func (w *world) refresh(i int, op Op) bool {
 		w.label("scope:" + op.Scope + "->" + sclass)
 	}
 	w.label("pres:"+presKind, "token:"+state)
-	w.sig = append(w.sig, fmt.Sprintf("%s/%s/%s/%s", router[:1], class, op.Scope, clientName(caller)))
+	place := ""
+	if op.In != "" {
+		place = "@" + op.In
+		if verdict == "refuse" && len(reasons) == 1 {
+			w.label("in:" + op.In + ":" + router + ":" + class)
+		} else {
+			w.label("in:" + op.In + ":" + router + ":" + verdict)
+		}
+	}
+	w.sig = append(w.sig, fmt.Sprintf("%s/%s/%s/%s%s", router[:1], class, op.Scope, clientName(caller), place))
 	if verdict == "grey" {
 		w.greyOps++
 	} else {
@@ -751,6 +798,9 @@ func (w *world) refresh(i int, op Op) bool {
 		return false
 	}
 	desc := fmt.Sprintf("op %d (%s router): refresh of %s token of lineage %s by client %q (%s), scope %q (%s)", i, router, state, linDesc(l), w.specs[caller].ID, presKind, form.Get("scope"), sclass)
+	if op.In != "" {
+		desc += ", parameters: " + op.In
+	}
 
 	if !resp.Success() {
 		// ---- refusal: nothing may have been issued or rotated
@@ -782,11 +832,17 @@ func (w *world) refresh(i int, op Op) bool {
 		if resp.OAuthError() == "" {
 			w.label("refusal-without-error-member")
 		}
+		if op.In != "" && verdict == "grey" && sclass != "malformed" {
+			w.label("in:" + op.In + ":" + router + ":valid-but-not-served")
+		}
 		return true
 	}
 
 	// ---- success
 	w.accepted++
+	if op.In != "" {
+		w.label("in:" + op.In + ":" + router + ":served")
+	}
 	if verdict == "refuse" {
 		grants := ""
 		if l != nil && strings.HasPrefix(reasons[0], "scope-") {
@@ -1044,9 +1100,9 @@ loop:
 
 var prop = vkit.Prop[Case]{
 	ID: "C07",
-	Rule: "cases = histories on two deployments sharing one storage (op.Provider router / LegacyServer router chosen per op; refresh grant disabled on none / one / both): 1-3+ code exchanges (openid, mostly offline_access, random further scopes) by a confidential (basic|post), a public PKCE and a private_key_jwt client, then up to 14 (thorough 28) ops: refresh(token = live / rotated / unknown{random,flipped,suffixed,access token,empty} of lineage #k; caller = owner / foreign client; presentation = right (optionally plus client_id=<owner> next to Basic / assertion) / wrong secret / client_id only / assertion by unregistered key; scope = absent / equal / permuted / subset / duplicate / full original / superset / widen-back / disjoint / empty / stray spaces; narrow->ask-for-more and rotate->replay pairs are generated on purpose), withdraw / restore a client's refresh grant, further code exchanges; storage policy narrowing persists on/off, extra audience, opaque / JWT access tokens; " +
-		"oracle = lineage model (must-accept iff owner + authenticated/identified + registered + enabled + live + scope within current grant; empty scope-tokens grey) with journal assertions (exactly one CreateAccessAndRefreshTokens(current = presented) on success, no Create* and unchanged tables on refusal), response refresh_token = storage's new token, id_token sub/aud/auth_time and access-token sub/aud continuity, scope of every issuance within the current grant; " +
-		"non-trivial = a lineage with >=2 successful refreshes containing a narrowing and a later request for more than the previous issuance, or a foreign-client attempt on a live token, or a replay of a rotated token; distinct = (narrow policy, disabled deployments, sequence of router/verdict+reasons/scope kind/caller per refresh op)",
+	Rule: "cases = histories on two deployments sharing one storage (op.Provider router / LegacyServer router chosen per op; refresh grant disabled on none / one / both): 1-3+ code exchanges (openid, mostly offline_access, random further scopes) by a confidential (basic|post), a public PKCE and a private_key_jwt client, then up to 14 (thorough 28) ops: refresh(token = live / rotated / unknown{random,flipped,suffixed,access token,empty} of lineage #k; caller = owner / foreign client; presentation = right (optionally plus client_id=<owner> next to Basic / assertion) / wrong secret / client_id only / assertion by unregistered key; scope = absent / equal / permuted / subset / duplicate / full original / superset / widen-back / disjoint / empty / stray spaces; parameter placement = POST body / grant_type in the URL query / refresh_token in the URL query / everything in the URL query / GET; narrow->ask-for-more and rotate->replay pairs are generated on purpose), withdraw / restore a client's refresh grant, further code exchanges; storage policy narrowing persists on/off, extra audience, opaque / JWT access tokens; " +
+		"oracle = lineage model (must-accept iff owner + authenticated/identified + registered + enabled + live + scope within current grant; empty scope-tokens grey; with parameters outside the body serving is not demanded (grey) but every refusal reason still binds and a success is judged in full) with journal assertions (exactly one CreateAccessAndRefreshTokens(current = presented) on success, no Create* and unchanged tables on refusal), response refresh_token = storage's new token, id_token sub/aud/auth_time and access-token sub/aud continuity, scope of every issuance within the current grant; " +
+		"non-trivial = a lineage with >=2 successful refreshes containing a narrowing and a later request for more than the previous issuance, or a foreign-client attempt on a live token, or a replay of a rotated token; distinct = (narrow policy, disabled deployments, sequence of router/verdict+reasons/scope kind/caller/placement per refresh op)",
 	Gen: genCase,
 	Run: run,
 }
